@@ -107,6 +107,23 @@ Section Composed.
     try_as_spdc_now R_ops U KM minpos c = Err ETotalReflection.
   Proof. intros Hf Hle Hs Hau Hoff Hd. rewrite (tir_outcome_composed U minpos c signal Hle Hs Hau Hoff Hd), Hf. reflexivity. Qed.
 
+  (* FULL STRENGTH with the repairs in the code (C17_current.repairs_now): only the crystal-angle search of a signal whose external
+     angle exists has to meet defined costs (and the Snell inverse has to answer, C13) *)
+  Theorem no_panic_composed_now U minpos c :
+    (forall b e cs, snell_inv b e cs <> None) -> angle_search_defined c ->
+    is_panic (try_as_spdc_now R_ops U KM minpos c) = false.
+  Proof.
+    intros H Hang. destruct repairs_now as (_ & Ht & Hn & _).
+    apply no_panic_composed; [exact H | rewrite Ht; discriminate | exact Hang | rewrite Hn; discriminate].
+  Qed.
+
+  Theorem tir_is_error_composed_now U minpos c signal :
+    cfg_le R_ops c = false -> signal_step R_ops KM c = Ok signal ->
+    is_auto (cc_theta_deg (c_crystal c)) = true -> c_pp c = PCOff ->
+    snell_ext_defined index_of signal (cfg_cs0 R_ops c) = false ->
+    try_as_spdc_now R_ops U KM minpos c = Err ETotalReflection.
+  Proof. intros. apply tir_is_error_composed with (signal := signal); try assumption. exact (proj1 (proj2 repairs_now)). Qed.
+
   (* the index along z is never 0 (a property of the index function; true of every physical crystal), and the emission angle of
      THIS configuration's optimum idler is defined *)
   Definition idler_defined_at (minpos : R) (c : spdc_cfg R) : Prop :=
